@@ -121,6 +121,20 @@ func (l *SimLN) truth(kind string) (status string, paid bool) {
 	return
 }
 
+// invoiceTruth: is the invoice with this payment hash settled, and what is the status of its payment.
+func (l *SimLN) invoiceTruth(hash string) (bool, string) {
+	l.mu.Lock()
+	defer l.mu.Unlock()
+	paid, st := false, "none"
+	if inv := l.Invoices[hash]; inv != nil {
+		paid = inv.paid
+	}
+	if p := l.Pays[hash]; p != nil {
+		st = p.Status
+	}
+	return paid, st
+}
+
 // lnFacade is the swap.LightningClient handed to one node process.
 type lnFacade struct {
 	l   *SimLN
